@@ -24,6 +24,7 @@ type checker struct {
 	tallest *canon
 	cache   sync.Map // content digest of a view -> struct{}: functional checks already evaluated for this content
 	noMemo  bool
+	sampled atomic.Bool
 
 	evalReal, evalMemo, sysFallthrough, stateReads, lookups, statesOpened, statesRefused atomic.Int64
 }
@@ -408,6 +409,10 @@ func (c *checker) functional(v *preconfirmed.ChainReader, entries []*pending.Pre
 		}
 	}
 
+	if whole && len(entries) >= 2 && c.sampled.CompareAndSwap(false, true) {
+		c.r.Sample(map[string]any{"what": "one fully evaluated view", "view": describe(v), "case": ctx(), "canonical_variants_read": len(c.selectCanons(base)),
+			"checks": "entry vs wire, tx/receipt lookups over the hash universe of slots lo-1..hi+1, state at every block and before every tx index vs dictionary overlay, deep hash before/after"})
+	}
 	after := viewDigest(v, pass{})
 	if after != before {
 		viol("view-changed-by-reading-through-it", map[string]any{})
